@@ -153,6 +153,7 @@ pub fn core_families(rep: &mut Report, thorough: bool) {
 	run_into(rep, "X", fam::fam_pairs_of(&fam::mixed_specs(), "X", body, &[Flavour::Guard]), &cfg);
 	run_into(rep, "D", fam::fam_d(body), &cfg);
 	run_into(rep, "F", fam::fam_f(body, thorough), &cfg);
+	run_into(rep, "V", fam::fam_vecs(body), &cfg);
 	if thorough {
 		run_into(rep, "N-flavours", fam::fam_pairs_of(&fam::nested_specs(), "Nf", body, &FLAVOURS[1..]), &cfg);
 		run_into(rep, "E3", fam::fam_e3(Body { touch: true, yield_mid: false, panic: false }), &cfg);
@@ -229,8 +230,10 @@ pub fn check_c09(tier: &str) -> ! {
 	eprintln!("  family R programs={} states={} transitions={} execs={} contended={} completions={} found={} [{:.1}s]", fr.programs, fr.stats.states, fr.stats.transitions, fr.stats.executions, fr.contended_programs, fr.stats.completions, fr.found.len(), t.elapsed().as_secs_f64());
 	absorb(&mut rep, &progs, &cfg, fr);
 	// a deadlock or an incomplete acquisition in these families is this property's "still completes" clause
-	let moved: Vec<Viol> = rep.xrefs.iter().filter(|v| v.prop == "C01" && v.key.starts_with("deadlock|")).cloned().collect();
-	rep.xrefs.retain(|v| !(v.prop == "C01" && v.key.starts_with("deadlock|")));
+	// a deadlock, or a thread waiting for a lock it holds itself, in these families means the retrying
+	// acquisition never completes
+	let moved: Vec<Viol> = rep.xrefs.iter().filter(|v| v.prop == "C01").cloned().collect();
+	rep.xrefs.retain(|v| v.prop != "C01");
 	for mut v in moved {
 		v.prop = "C09".into();
 		v.key = format!("never-completes|{}", v.key);
